@@ -1,7 +1,7 @@
 #!/usr/bin/env python3
 """Generate MANIFEST.json from the property tables (single place to edit)."""
 import json, subprocess, sys
-sys.path.insert(0, "/verif")
+sys.path.insert(0, os.environ.get("VERIF_ROOT", "/verif"))
 hooks = subprocess.check_output(["git", "-C", "/repo", "log", "--format=%h %s"]).decode().splitlines()
 hook_commits = [l.split()[0] for l in hooks if l.split(" ", 1)[1].startswith("verif hooks")]
 TRACE = {
@@ -38,7 +38,7 @@ for p, txt in TRACE.items():
     })
 OTHER = {
  "C18": dict(engine="lockstep-resarith", cat="model_checking", tech="TLA+ specification of the resource operators and the quantity grammar; TLC enumerates boundary inputs with expected results, lock-step replay on the real functions; Apalache proves the saturating int64 arithmetic for all inputs",
-   text="spec/ResOps.tla specifies the 28 vector operators, spec/Int64Sat.tla transcribes addVal/subVal/mulVal as coded: Apalache proves Coded = Clamp(exact) for ALL int64 inputs, TLC enumerates all operator cases over key sets within {a,b} (nil and empty included) and boundary values (MinInt64..MaxInt64 in boundary-symbolic form) and every quantity string up to 4/5 symbols; each case is replayed on the real pkg/common/resources functions (result, panics, arguments unmodified)",
+   text="spec/ResOps.tla specifies the 30 vector operators (the in-place AddTo and SubFrom included), spec/Int64Sat.tla transcribes addVal/subVal/mulVal as coded: Apalache proves Coded = Clamp(exact) for ALL int64 inputs, TLC enumerates all operator cases over key sets within {a,b} (nil and empty included) and boundary values (MinInt64..MaxInt64 in boundary-symbolic form) and every quantity string up to 4/5 symbols; each case is replayed on the real pkg/common/resources functions (result, panics, arguments unmodified)",
    note="trusted: TLC/Apalache, the 10-line math/big evaluator of the symbolic quantity value (the quantity half is a specification-derived differential test), the conversion of boundary-symbolic pairs to int64"),
  "C20": dict(engine="lockstep-events", cat="model_checking", tech="TLA+ specifications EventRing/EventStore/EventStream model-checked by TLC; every behaviour replayed lock-step on the real ring buffer / store, every interleaving of the stream protocol replayed on the real EventStreaming with gates",
    text="EventRing.tla (id-indexed history with Add/Resize/Query/Recent), EventStore.tla and EventStream.tla (publisher and subscriber split into the steps the code takes) are explored exhaustively by TLC for capacities 1..4, <=9 ids, all (start,count) in 0..10 x 0..10, 1-2 subscribers, <=4 events; all behaviours are replayed on the real objects (pointer identity of records), stream interleavings are forced on the real EventStreaming/EventSystemImpl through the verif gates",
